@@ -19,6 +19,13 @@ def C(v):
 def templates(draw, names):
     """(template name, model)"""
     def hole(d=None):
+        k = draw(st.integers(0, 5))
+        if k == 0 and names:
+            # a hole that is positive everywhere / at most points, so that logarithm, root and power templates are
+            # actually defined at the generated points
+            v = ("Variable", draw(st.sampled_from(names)))
+            return draw(st.sampled_from([("Add", (("NthPower", v, 2), ("Constant", 1))), ("Exponential", v, 2), v, ("Constant", 3),
+                                         ("Add", (("NthPower", v, 2), ("Constant", 0.5)))]))
         return draw(S.trees(names, depth=draw(st.integers(0, 2)) if d is None else d, const_bias=2))
 
     def n():
@@ -27,15 +34,31 @@ def templates(draw, names):
     def base():
         return draw(st.sampled_from(BASES))
 
-    def nary(tag, special, extra=(0, 3)):
-        """special items placed at generated positions among generated other items."""
+    def nary(tag, special, extra=(0, 3), wrap=True):
+        """special items placed at generated positions among generated other items; some of them negated (in a
+        sum) / inverted (in a product), because the n-ary rules and the normal-form pass treat those specially."""
         others = [hole(1) for _ in range(draw(st.integers(*extra)))]
-        items = others + list(special)
+        special = list(special)
+        if wrap:
+            w = "Negation" if tag == "Add" else "Reciprocal"
+            special = [(w, x) if draw(st.integers(0, 4)) == 0 else x for x in special]
+        items = others + special
         items = draw(st.permutations(items))
         return (tag, tuple(items))
 
+    def ph():
+        """mostly-positive hole for templates whose left-hand side needs positive arguments to be defined"""
+        if not names or draw(st.integers(0, 2)) == 0:
+            return hole()
+        x = ("Variable", draw(st.sampled_from(names)))
+        return draw(st.sampled_from([("Add", (("NthPower", x, 2), ("Constant", 1))), ("Exponential", x, 2), x, x, ("Constant", 3),
+                                     ("Constant", 0.5), ("Multiply", (x, x)), ("NthPower", x, 4), ("Add", (x, ("Constant", 5)))]))
+
     name = draw(st.sampled_from(TEMPLATE_NAMES))
-    u, v, w = hole(), hole(), hole()
+    if name in POSITIVE_TEMPLATES:
+        u, v, w = ph(), ph(), ph()
+    else:
+        u, v, w = hole(), hole(), hole()
     if name == "neg-neg":
         m = ("Negation", ("Negation", u))
     elif name == "neg-sum":
@@ -159,6 +182,10 @@ def templates(draw, names):
         raise AssertionError(name)
     return name, m
 
+
+POSITIVE_TEMPLATES = {"add-logs-same-base", "add-logs-mixed-bases", "mul-nth-roots", "pow-one", "pow-zero", "pow-n", "pow-minus-one",
+                      "pow-other-constant", "pow-pow", "pow-neg-exponent", "recip-pow", "nthpower-of-root", "root-of-nthpower",
+                      "root-of-root", "root-of-recip", "exp-of-log", "log-of-exp", "log-of-recip", "log-of-nthpower"}
 
 TEMPLATE_NAMES = [
     "neg-neg", "neg-sum", "recip-recip", "recip-neg", "recip-product", "cos-neg", "sin-neg", "minus", "divide",
